@@ -948,11 +948,13 @@ func (h *handler) asyncSyncAdChain(ctx context.Context) {
 		if h.subscriber.receiver != nil {
 			h.subscriber.receiver.UncacheCid(nextCid)
 		}
+		verifPoint("event.emit.begin", h.peerID, nextCid)
 		h.subscriber.inEvents <- SyncFinished{
 			Cid:    nextCid,
 			PeerID: h.peerID,
 			Err:    err,
 		}
+		verifPoint("event.emit.end", h.peerID, nextCid)
 		return
 	}
 
